@@ -147,6 +147,7 @@ pzgstrf_thread_init(SuperMatrix *A, SuperMatrix *L, SuperMatrix *U,
     /* Allocate global storage common to all the factor routines */
     *info = pzgstrf_MemInit(n, Astore->nnz, options, L, U, &Glu);
     if ( *info ) return NULL;
+    SLU_MT_VERIF_EVENT(SLU_EV_INIT, -1, n, sizeof(int_t), options, pxgstrf_shared);
 
     /* Prepare arguments to all threads. */
     pzgstrf_threadarg = (pzgstrf_threadarg_t *) 
